@@ -56,6 +56,24 @@ CLAIMED.update({
                 tech="order-type enumeration + non-commutative symbolic execution + axis-type inference + typestate", ref="3/C08"),
 })
 
+CLAIMED.update({
+    "C16": dict(cat="other",
+                text="Must-pass-through on the CFG of every factorising entry point (numeric factorisation + solve of this call's "
+                     "A, or the retry's own result); refresh flag after every Jacobian rebuild in both Newton loops; CCS->csc field "
+                     "order; sibling agreement on singular matrices (NaN sentinel) across solve/linsolve and back-ends; a library-"
+                     "contract table demands a pattern guard where the library does not validate the cached symbolic factor; "
+                     "facade dispatch. Numerical agreement across back-ends and bit-identical repetition are declined.",
+                note="Trusted: kvxopt/scipy contracts (table in rules/c16.py, confirmed by findings/demo_solver_*.py).",
+                tech="must-pass-through on statement CFG + sibling cross-check + structural AST patterns", ref="3/C16"),
+    "C17": dict(cat="other",
+                text="Error discipline: every unsuccessful return of PFlow.run, TDS.run, TDS.test_init, EIG.run, System.setup passes "
+                     "an exit_code increment (value-sensitive on the `ret` flag); success flags are guarded by the routine's own "
+                     "test; TDS.init/itm_step call sites in other routines are dominated by a PFlow.converged gate with early "
+                     "return; CLI aggregation; NaN exits precede state updates; solver sentinel propagation.",
+                note="That every ill-posed input reaches one of these exits is a runtime fact and declined.",
+                tech="error-discipline / must-pass-through / guard dominance on statement CFGs", ref="3/C17"),
+})
+
 NOT_YET = {}
 
 NA = {
